@@ -55,7 +55,7 @@ LEVEL_NOTE = ('Trusted: NumPy, Hypothesis, vlib/ref/rotations.py and '
               '(ASTRA absent): only the geometry side of that anchor is '
               'decided.')
 DESIGN_REF = 'DESIGN.md section 5, C19'
-BUDGET = {'quick': 6000, 'thorough': 90000}
+BUDGET = {'quick': 16000, 'thorough': 160000}
 EPS = float(np.finfo(float).eps)
 K_TOL = 64
 TOLERANCES = {
